@@ -54,7 +54,10 @@ Finished(cn) == cn.rst \/ (cn.fin["c"] /\ cn.fin["s"])
 Idle(conns, c, now) == now - conns[c].last
 
 (* ---- the verdict on one observed packet step ----
-   conns: the reference table before the packet; cfg: [attach, keepAlive, maxChunks, maxBytes]; p: the packet record
+   conns: the reference table before the packet; cfg: [attach, keepAlive, maxChunks, maxBytes, ignore]; ignore = "none" |
+   "client" | "server": the user told every new stream to ignore that direction's data (Stream::ignore_client_data /
+   ignore_server_data) - no data callbacks and no buffering for it, everything else (announcement, close, time-out) unchanged;
+   p: the packet record
    extended with what was OBSERVED while the follower processed it:
       cb     sequence of callbacks [k: "new"|"cdata"|"sdata"|"closed"|"term", c: conn, b: bytes, r: reason, client: endpoint]
       live   the connections the follower still finds afterwards
@@ -98,10 +101,10 @@ Judge(conns, cfg, p) ==
                    d0 == cn0.dir[p.from]
                    chunks == RangeOf(p.buf[p.from])
                IN /\ Cbs(wrong) = {} /\ Cardinality(Cbs(side)) <= 1
-                  /\ IF p.len > 0
+                  /\ IF p.len > 0 /\ ~(cfg.ignore = (IF side = "cdata" THEN "client" ELSE "server"))
                      THEN R!ArriveOKB(LAMBDA q : ByteOf(c, p.from, q), d0.arrived, d0.k, p.off, p.len,
                                       cn1.dir[p.from].arrived, cn1.dir[p.from].k, got, chunks, R!SumLen(chunks))
-                     ELSE got = <<>>
+                     ELSE got = <<>> /\ (p.len > 0 => chunks = {})      \* a direction the user ignores delivers and buffers nothing
           \* P3: forgotten exactly when both sides sent FIN or either sent RST; closed reported once
           /\ (\E x \in Cbs("closed") : x.c = c) <=> fin
           /\ Cardinality(Cbs("closed")) = (IF fin THEN 1 ELSE 0)
